@@ -127,6 +127,28 @@ def check(ctx, spec):
                                                           'seed': ctx.seed, 'oracle': vl})
         ctx.violations.append((path, ''))
 
+    # native mode (unmodified library, real scheduler, race detector)
+    if spec.get('native'):
+        from . import native
+        nv = native.run(ctx, spec['native']['scenarios'], spec['native'].get('thorough_rounds', 400) if thorough else spec['native'].get('rounds', 25), ctx.seed)
+        cov['native'] = dict(scenarios=spec['native']['scenarios'], stats=nv['stats'], races=len(nv['races']))
+        if not nv['ok']:
+            broken.append(('harness-build', 'native harness failed to build / run:\n' + nv['log']))
+        for h in nv['hits']:
+            if h['prop'] == ctx.pid:
+                hits.append(({'family': 'native', 'seed': ctx.seed, 'strategy': 'native', 'params': {}}, h))
+        if ctx.pid == 'C19':
+            seen = set()
+            for rc_ in nv['races']:
+                if rc_['key'] in seen:
+                    continue
+                seen.add(rc_['key'])
+                hits.append(({'family': 'native', 'seed': ctx.seed, 'strategy': 'native', 'params': {}},
+                             {'prop': 'C19', 'kind': 'data-race', 'detail': rc_['text']}))
+        if nv['panicked'] and ctx.pid in spec.get('crash_props', ['C03', 'C19']):
+            hits.append(({'family': 'native', 'seed': ctx.seed, 'strategy': 'native', 'params': {}},
+                         {'prop': ctx.pid, 'kind': 'panic', 'detail': nv['log'][-1500:]}))
+
     fam = ctl.summarize(results)
     cov['evaluations'] = len(results)
     cov['distinct_nontrivial'] = sum(f['distinct'] for f in fam.values())
@@ -154,7 +176,7 @@ def check(ctx, spec):
                 if line not in ctx.known:
                     ctx.known.append(line)
                 continue
-            key = (r['family'], v['kind'])
+            key = (r['family'], v['kind'], v['detail'][:200] if v['kind'] == 'data-race' else '')
             if key in reported:
                 continue
             reported.add(key)
